@@ -16,12 +16,12 @@ PROP = "C05"
 def gen(rng, tier, boost):
     cases = []
     dist = {"random_text": 0, "grammar_doc": 0, "damaged_doc": 0}
-    n = (2500 if tier == "quick" else 60000) * boost
+    n = (30000 if tier == "quick" else 600000) * boost
     for _ in range(n):
         w = rng.randrange(4)
         cases.append("P %d %s" % (w, fmt_list(jc.gen_text(rng, w))))
         dist["random_text"] += 1
-    ndoc = (60 if tier == "quick" else 1200) * boost
+    ndoc = (300 if tier == "quick" else 8000) * boost
     for _ in range(ndoc):
         w = rng.randrange(4)
         v, out = jc.gen_doc(rng, w, maxlen=rng.choice([30, 60, 200]))
